@@ -93,7 +93,8 @@ def step : Sexp → Option Sexp
         ofBool (!sameMembers (p.foW.map (·.name)) (v.foW.map (·.name))),
         ofBool (KnownCreatedNotReplicated p.info (fun f => vW.contains f) (visited mC true p.foC))]
       pure (list [atom "ok", list (atom "transform" :: rLib plan.transform), list (atom "append" :: rLib plan.append),
-                  list (atom "remove" :: rLib plan.remove), list (atom "written" :: (dedup wr).map str), known])
+                  list (atom "remove" :: rLib plan.remove), list (atom "written" :: (dedup wr).map str), known,
+                  list (atom "planfile" :: (planFileSets plan).map (fun b => list (str b.1 :: b.2.map str)))])
   | _ => none
 
 def main : IO Unit := driverMain step
